@@ -37,6 +37,9 @@ there) does not hold: C02_Residual / C02_DecorativeExact, signature equation-und
 Behaviours with a persistent evaluation error are realised 6 times: failing equation declared last / first
 (= last / not last simultaneous equation) x ZeroDivisionError, ValueError (log10 of 0), user function raising
 ValueError; overflowing behaviours with the overflowing variable declared last / first.
+Chains of copy variables (spec/SolverChains.tla: v1 = S, v2 = v1, ... in every declaration order, source first /
+last, optional derived-only or simultaneous leaf on a link, source changing in every period) are realised and
+every copy equation AS SUBMITTED must hold exactly in every period (C02_DecorativeExact).
 Readings: which equations are "derived-only" is the solver's own classification (Parser.Decoration
 after reduction); all others only need the residual bound.  Numeric predicates are computed by the
 projection in Fraction arithmetic on the reported floats; the right-hand sides are those submitted.
@@ -69,8 +72,9 @@ def run(rep):
     rep.extra['behaviours_replayed'] = sum(1 for b in behs if sk.scenario_realisable(b))
     rep.extra['behaviour_realisations'] = len(items)
     items += forms_items(rep)
+    items += chain_items(rep)
     items += [{'case': c} for c in sk.classics()]
-    n_random = 400 if rep.tier == 'quick' else 5000
+    n_random = 300 if rep.tier == 'quick' else 5000
     items += [{'case': c} for c in sk.random_cases(rep.seed, n_random, contractive_share=0.4)]
     rep.extra['random_systems'] = n_random
     observed, verdicts = sk.judge_cases(rep, core, 'C02', items, nontrivial)
@@ -82,7 +86,8 @@ def run(rep):
 
 def forms_items(rep):
     """spec/SolverForms.tla: all shapes "A = <form>(S), U = 0.25*U + <position>(A)" of the bounded instance"""
-    sk.expect_counterexample(rep, core, 'MC_SolverForms_seeded.cfg', 'C02_IteratedSystemEquivalent', module='MC_SolverForms')
+    if rep.tier == 'thorough':     # (quick: budget) the defective variant of the spec still yields its counterexample
+        sk.expect_counterexample(rep, core, 'MC_SolverForms_seeded.cfg', 'C02_IteratedSystemEquivalent', module='MC_SolverForms')
     cfg = 'MC_SolverForms_quick.cfg' if rep.tier == 'quick' else 'MC_SolverForms_thorough.cfg'
     res = core.tlc('MC_SolverForms', cfg, workers=1, tag='c02f')
     if res.violated:
@@ -91,9 +96,29 @@ def forms_items(rep):
     behs = list({core.canonical(b): b for b in core.json_of_printed(res, 'BEH')}.values())
     if not behs:
         raise core.MachineryError('TLC emitted no behaviours for ' + cfg)
+    if rep.tier == 'quick':
+        # budget: without reduction nothing is substituted; every 4th of those shapes is replayed (all in thorough)
+        behs.sort(key=core.canonical)
+        behs = [b for i, b in enumerate(behs) if b['sys']['red'] or i % 4 == 0]
     rep.extra['form_shapes_replayed'] = len(behs)
     # (the SolveEquation() cross-run is left to the other case families)
     return [{'case': sk.form_case(b), 'behaviour': b, 'whole': False} for b in behs]
+
+
+def chain_items(rep):
+    """spec/SolverChains.tla: chains of copy variables in every declaration order, with leaves"""
+    if rep.tier == 'thorough':
+        sk.expect_counterexample(rep, core, 'MC_SolverChains_seeded.cfg', 'C02_DecorativeValuesCurrent', module='MC_SolverChains')
+    cfg = 'MC_SolverChains_quick.cfg' if rep.tier == 'quick' else 'MC_SolverChains_thorough.cfg'
+    res = core.tlc('MC_SolverChains', cfg, workers=1, tag='c02c')
+    if res.violated:
+        raise core.MachineryError('spec invariant %s violated in %s' % (res.violated, cfg))
+    rep.add_tlc(res, 'exhaustive ' + cfg)
+    decls = list({core.canonical(b): b for b in core.json_of_printed(res, 'BEH')}.values())
+    if not decls:
+        raise core.MachineryError('TLC emitted no behaviours for ' + cfg)
+    rep.extra['chain_declarations_replayed'] = len(decls)
+    return [{'case': sk.chain_case(d), 'behaviour': d, 'whole': False} for d in decls]
 
 
 def harvest_part(rep):
